@@ -313,6 +313,39 @@ def judge_named_dag(case, im, mo):
 SN = common.Stream("named_dags", impl_named_dag, line_named_dag, judge_named_dag, chunk=16)
 
 
+
+def late_edit_programs():
+    """Programs in which something a package is made from is edited late — after the library has looked at it once: whatever
+    `to_proto` then returns must be a well-formed package (or it must raise)."""
+    def ext_ports_grown():
+        E = h.ExternalModule(name="Egrow", port_list=[h.Port(name="a"), h.Port(name="b")], paramtype=dict)
+        _ = dict(E.ports)                       # looked at once …
+        E.port_list.append(h.Port(name="sub"))  # … then a terminal is added
+        m = h.Module(name="UsesEgrow")
+        m.x, m.y = h.Signals(2)
+        m.e = E({})(a=m.x, b=m.y)               # wired to the interface as it was
+        return m
+
+    def ext_ports_shrunk():
+        E = h.ExternalModule(name="Eshrink", port_list=[h.Port(name="a"), h.Port(name="b"), h.Port(name="c")], paramtype=dict)
+        _ = list(E.ports)
+        E.port_list.pop()
+        m = h.Module(name="UsesEshrink")
+        m.x, m.y, m.z = h.Signals(3)
+        m.e = E({})(a=m.x, b=m.y, c=m.z)
+        return m
+
+    def signal_narrowed():
+        m = h.Module(name="Narrowed")
+        m.bus = h.Signal(width=4)
+        sl = m.bus[3]
+        _ = sl.width
+        m.bus.width = 2
+        m.r = h.R(r=1)(p=sl, n=m.bus[0])
+        return m
+
+    return [("late:ext_ports_grown", ext_ports_grown), ("late:ext_ports_shrunk", ext_ports_shrunk), ("late:signal_narrowed", signal_narrowed)]
+
 def run(ctx):
     rep = ctx.rep
     rep.extra["rule"] = (
@@ -367,6 +400,13 @@ def run(ctx):
             labelled.append((label, pkg))
         except Exception as ex:  # noqa
             rep.fail("corr", {"stream": "builtin", "label": label}, f"export raised {type(ex).__name__}: {str(ex)[-200:]}")
+    # 2a. late edits: a refusal is as good as a well-formed package
+    for label, mk in late_edit_programs():
+        rep.count("late_edits", label)
+        try:
+            labelled.append((label, h.to_proto(mk())))
+        except Exception:  # noqa
+            pass
     ex_pkgs, ex_errors = examples_packages()
     rep.extra["examples_errors"] = ex_errors
     labelled += [(f"example:{i}", p) for i, p in enumerate(ex_pkgs)]
